@@ -177,15 +177,19 @@ def _run(ctx, pool):
             sigs[s["id"]] = sg
             ctx.finding(sg, "recorded Dial history is not a behaviour of Roller (twice): %s" % json.dumps(r["steps"][-1]), {"scenario": s, "observed": r})
         if unrepro:
-            raise vlib.Machinery("%d rejected histories did not reproduce (ids %s)" % (len(unrepro), unrepro[:10]))
+            raise vlib.Machinery("%d rejected histories did not reproduce (ids %s); first run of the first one: %s"
+                                 % (len(unrepro), unrepro[:10], json.dumps(rows[unrepro[0]])[:3000]))
 
     # ------------------------------------------------------------------ 4. binding canaries
-    def two_tried(r):
-        return r["id"] in acc and any(len(d["seen"]) >= 2 and d["ret"] == "ok" for st in r["steps"] for d in st["dials"]) and r["steps"][0]["n"] == 1 \
-            and len(r["steps"][0]["dials"][0]["seen"]) >= 2 and r["steps"][0]["dials"][0]["ret"] == "ok"
+    def two_tried(r):   # first call: a preset working ID is tried first and refused, a later ID is accepted
+        d = r["steps"][0]["dials"][0]
+        return r["id"] in acc and r["steps"][0]["n"] == 1 and r["preset"] != "-" and len(d["seen"]) >= 2 and d["seen"][0] == r["preset"] and d["ret"] == "ok"
     base = next((r for r in allrows if two_tried(r)), None)
-    if base is None:
-        raise vlib.Machinery("vacuity: no accepted history whose first Dial needed two attempts")
+    if base is None and not ctx.findings:
+        raise vlib.Machinery("vacuity: no accepted history whose first Dial tried the preset working ID and then another one")
+    if base is None:       # reproduced rejections are the result of this run; the canaries need an accepted history
+        ctx.note("binding canaries skipped: no accepted history to derive them from (the run has reproduced rejections)")
+        base = None
     def variant(f):
         c = json.loads(json.dumps(base)); f(c["steps"][0], c["steps"][0]["dials"][0]); return c
     def swap(st, d): d["seen"][0], d["seen"][1] = d["seen"][1], d["seen"][0]
@@ -198,13 +202,16 @@ def _run(ctx, pool):
     muts = {"order-swapped": swap, "id-tried-twice": dup, "returned-conn-not-the-accepted-one": wrongconn, "working-not-recorded": notrecorded,
             "wrong-sni": wrongsni, "tcp-error-after-hellos": tcpish, "kept-trying-after-success": toomany}
     names = sorted(muts)
-    crow = [dict(base, id=1)] + [dict(variant(muts[n]), id=k + 2) for k, n in enumerate(names)]
-    cacc = validate(ctx, crow, shards=1, tagname="c")
-    if 1 not in cacc:
-        raise vlib.Machinery("canary control history was rejected")
-    swallowed = [names[k - 2] for k in cacc if k != 1]
-    if swallowed:
-        raise vlib.Machinery("binding canary accepted by the trace specification: %s" % swallowed)
+    if base is not None:
+        crow = [dict(base, id=1)] + [dict(variant(muts[n]), id=k + 2) for k, n in enumerate(names)]
+        cacc = validate(ctx, crow, shards=1, tagname="c")
+        if 1 not in cacc:
+            raise vlib.Machinery("canary control history was rejected")
+        swallowed = [names[k - 2] for k in cacc if k != 1]
+        if swallowed:
+            raise vlib.Machinery("binding canary accepted by the trace specification: %s" % swallowed)
+    else:
+        names = []
 
     # ------------------------------------------------------------------ 5. model-checking results + vacuity
     safe, cov, live = f_safe.result(), f_cov.result(), f_live.result()
@@ -233,7 +240,7 @@ def _run(ctx, pool):
         for st in r["steps"]:
             seen["two_concurrent_successes"] += (st["n"] == 2 and all(d["ret"] == "ok" for d in st["dials"]))
     empty = [k for k, v in seen.items() if v == 0]
-    if empty:
+    if empty and not ctx.findings:
         raise vlib.Machinery("vacuity: no accepted real history exercised %s" % empty)
     ndials = sum(len(st["dials"]) for r in allrows for st in r["steps"])
     nhello = sum(len(d["seen"]) for r in allrows for st in r["steps"] for d in st["dials"])
